@@ -179,7 +179,7 @@ fn one_case(run: &Run, case: u64) {
 
 pub fn run(tier: Tier, replay: Option<Value>) -> i32 {
     let run = Run::new("C15", "exploration", tier, replay);
-    run.par_cases(tier.pick(3000, 60000), super::threads(), |c| one_case(&run, c));
+    run.par_cases(tier.pick(3000, 300000), super::threads(), |c| one_case(&run, c));
     run.finish(
         "generated trees (depth <= 4, names with extensions, upper/lower case, digits, non-ASCII) x sets of 1-4 exclusion patterns instantiated from the tree: anchored file and directory paths, bare names, '*.ext', '?x', 'd/*/f', '**/n', 'd/**', '[ab]*', '[!a-z]*', 'é*', '/d/*'. Observed: (a) the paths stored by backup(exclude=E) decoded independently, (b) iter_entries(full backup, exclude=E), (c) the paths created by restore(full backup, exclude=E); all three must equal, below the root, the set given by the rule 'omitted iff the path or an ancestor matches a pattern' evaluated with globs the harness builds from the raw patterns (leading '/' anchors at the root, otherwise any depth). Non-trivial = some but not all paths excluded.",
         &["globset's matcher is trusted for what a single glob matches; anchoring, ancestor propagation and the three code paths are what is checked"],
